@@ -38,6 +38,10 @@ pub fn cases(thorough: bool, seed: u64) -> Vec<Params> {
                     for kind in 0..(2 + 3 * k) {
                         out.push(Params { n, t, ids: ids.clone(), subset: s.clone(), variant: V_TAMPER, aux: kind, seed });
                     }
+                    // the same commitments filed under other identifiers (the "exact commitment set" includes who committed)
+                    for kind in [1000u64, 1001, 1002] {
+                        out.push(Params { n, t, ids: ids.clone(), subset: s.clone(), variant: V_TAMPER, aux: kind, seed });
+                    }
                     for mode in 0..3u64 {
                         for slot in 0..k {
                             out.push(Params { n, t, ids: ids.clone(), subset: s.clone(), variant: V_CHEAT, aux: mode | (slot << 4), seed });
@@ -150,6 +154,36 @@ pub fn run<C: RandomizedCiphersuite, L: Lab<C>>(lab: &mut L, p: &Params) {
                     m.insert(extra, cc);
                     my_pkg = fc::SigningPackage::new(m, &msg);
                     tampered = Some("a participant added to the commitment set".to_string());
+                }
+            } else if kind >= 1000 {
+                // no commitment value changes; only the identifiers they are filed under
+                let others: Vec<Identifier<C>> = sess.signers.iter().filter(|s| *s != id).copied().collect();
+                let outsider = Identifier::<C>::try_from(4242u16).unwrap();
+                let mut m = sess.commitments.clone();
+                if kind == 1000 {
+                    // the highest other participant's entry moves to an identifier above every signer (order preserved)
+                    if let Some(last) = others.last() {
+                        let c = m.remove(last).unwrap();
+                        m.insert(outsider, c);
+                        tampered = Some("an entry is filed under a different, larger identifier (same values, same order)".to_string());
+                    }
+                } else if kind == 1001 {
+                    // ... to an unused identifier of the group, wherever it sorts
+                    if let (Some(first), Some(extra)) = (others.first(), ids.iter().find(|i| !sess.signers.contains(i)).copied()) {
+                        let c = m.remove(first).unwrap();
+                        m.insert(extra, c);
+                        tampered = Some("an entry is filed under an unused identifier of the group".to_string());
+                    }
+                } else if others.len() >= 2 {
+                    // two other participants' entries exchanged
+                    let (a, b) = (others[0], others[1]);
+                    let (ca, cb) = (m[&a], m[&b]);
+                    m.insert(a, cb);
+                    m.insert(b, ca);
+                    tampered = Some("two other participants' entries are exchanged".to_string());
+                }
+                if tampered.is_some() {
+                    my_pkg = fc::SigningPackage::new(m, &msg);
                 }
             } else {
                 let slot = (kind - 2) / 3;
